@@ -95,11 +95,21 @@ class Verifier(Engine):
         self.obls.append(o)
         self.start(fr, st)
         # every ghost event of the contract must bind to an instruction that some explored path reaches
+        # (always generated, so that the obligation is part of the lock and a contract that drifted away from the code is a violation)
         if c is not None and ' @' not in name:
+            seen_ev = set()
             for ev, stmts, txt in c.ghost:
-                if (c.name, ev) not in self.fired_events:
-                    o = Obl('%s/ghost.bound/%s' % (name, re.sub(r'\s+', '_', ev)), 'ghost.bound', [], BoolVal(False), [], fn.pos, 'ghost event %r binds to no reachable instruction' % ev)
-                    self.obls.append(o)
+                if ev in seen_ev: continue
+                seen_ev.add(ev)
+                bound = (c.name, ev) in self.fired_events
+                o = Obl('%s/ghost.bound/%s' % (name, re.sub(r'\s+', '_', ev)), 'ghost.bound', [], BoolVal(bound), [], fn.pos, 'ghost event %r binds to an instruction that an explored path reaches' % ev)
+                self.obls.append(o)
+        # `forbid <callee>, ...`: the body contains no call of the named callee (static; e.g. init must never close the caller's Conn)
+        if c is not None and c.flags.get('forbid'):
+            for nm_ in [x.strip() for x in c.flags['forbid'].split(',') if x.strip()]:
+                hits = [i.get('pos', '') for b in fn.blocks for i in b['instrs'] if i['op'] in ('Call', 'Go', 'Defer') and self.instr_sig(i)[1] == nm_]
+                o = Obl('%s/forbid/%s' % (name, nm_), 'forbid', [], BoolVal(not hits), [], hits[0] if hits else fn.pos, 'no call of %s in the body (found at: %s)' % (nm_, ', '.join(hits)))
+                self.obls.append(o)
         return fn
 
     def result_env(self, fr, st, vals, fn):
